@@ -39,7 +39,7 @@ _CONTAINERS = [
     '{"x": 1.5}', "{(1,): 1}", '{"a": {"a": 1}}',
     # siblings that are equal under == but differ in type (1 / 1.0 / True), bare and inside unhashable containers
     "[1, 1.0]", "[1, True]", "(1.0, 1)", "[[1], [1.0]]", "[[1.0], [1]]", "[[True], [1]]", "[[0], [False]]", "([1, 2], [1, 2.0])",
-    '[{"a": True}, {"a": 1}]', "[{1}, {1.0}]", "{1: [1], 2: [1.0]}", "[[1], [1], [1.0]]",
+    '[{"a": True}, {"a": 1}]', "[{1}, {1.0}]", "{1: [1], 2: [1.0]}", "[[1], [1], [1.0]]", "[(True, 2), (1, 2)]", "[(1, 2), (True, 2)]", '{"a": (True,), "b": (1,)}',
 ]
 _INSTANCES = ["A()", "B()", "C()", "D(1)", 'D(1, "y")', "G()", "WithX()", "Closer()",
               # instances of user generics derived from builtin containers
@@ -86,6 +86,10 @@ LEAF_TYPES = [
     "Literal[1]", "Literal[True]", 'Literal["a"]', "Literal[0, 1]", "Literal[E.a]", 'Literal[b"a"]',
     "Literal[None]", 'Literal[1, "a"]', "Literal[E.a, E.b]", "tuple[()]",
     "Rev[int, str]", "Rev[str, int]", "Fwd[int, str]", "IntKeyed[str]", "LS[int]", "FSub", "ISub", "Perm",
+    # unions of ten or more members (pyanalyze switches to an indexed lookup there), with literals that are equal
+    # across types in both orders
+    "Literal[0, 1, 2, 3, 4, 5, 6, 7, 8, False, True]", 'Literal[False, True, 0, 1, 2, 3, 4, 5, 6, 7, 8, "a"]',
+    'Union[Literal[1, True, "a", b"a", None, E.a], int, bytes, A, C, list[int], tuple[int, ...]]',
 ]
 UNARY = [
     "Optional[{0}]", "list[{0}]", "List[{0}]", "set[{0}]", "frozenset[{0}]", "tuple[{0}, ...]",
